@@ -176,7 +176,7 @@ def r4(ctx, prog, eng):
     for n in news:
         p = q.pt(al, n)
         ok = False
-        for cond, k, b in al.cfg.controlling_branches(p):
+        for cond, k, b in q.guards_incl_flags(al, p):
             c = al.s(al.strip_casts(cond))
             if c and c['k'] == 'BinaryOperator' and c.get('op') == '<' and k == 0:
                 lf, rf = q.subtree_fields(al, c['ch'][0]), q.subtree_fields(al, c['ch'][1])
@@ -184,7 +184,7 @@ def r4(ctx, prog, eng):
                     ok = True
         ctx.ob('C10.R4', '%s|alloc-bounded' % al.name, ok, 'new Buffer is control dependent on buff_num_ < cfg_.buff_max_num', where=al.loc(n['i']))
         incs = [st for st in q.writes(al, 'Impl::buff_num_')]
-        ctx.ob('C10.R4', '%s|alloc-counted' % al.name, any(al.cfg.dominates(q.pt(al, i), p) for i in incs),
+        ctx.ob('C10.R4', '%s|alloc-counted' % al.name, q.dominated_incl_flags(al, q.pts(al, incs), p),
                'the counter is incremented before the allocation on that path', where=al.loc(n['i']))
     waits = [st for st in al.stmts if st and q.is_call(st, cls='std::condition_variable') and st.get('fn') in locks.CV_WAITS]
     okw = False
